@@ -123,7 +123,8 @@ def scen(delays, outs, api, only_name, alphabet, kind='coro'):
                     devs.append('yielded-before-all-finished')
     if not all(finished):
         devs.append('awaitable-skipped-or-cancelled')
-    LAST_INFO = {'delays': list(delays), 'outcomes': [which(i) for i in range(n)], 'only': only_name, 'api': 'raise_first_exc' if api else 'gather_excs',
+    if not vfw.prelude.tracing():
+        LAST_INFO = {'delays': list(delays), 'outcomes': [which(i) for i in range(n)], 'only': only_name, 'api': 'raise_first_exc' if api else 'gather_excs',
                  'finish_order': finish_order, 'outcome': outcome[0], 'expected': [repr(e) for e in expected],
                  'got': [repr(e) for e in result.get('got', [])], 'raised': repr(result.get('raised'))}
     return devs
